@@ -178,7 +178,7 @@ def tlc(module_path, cfg_path, workers=8, timeout=600, env=None, simulate=None, 
         res["states"] = res["distinct"] = res["generated"] = 0
     m = re.search(r"Invariant (\S+) is violated", out)
     res["inv"] = m.group(1) if m else None
-    res["violated"] = bool(m) or "is violated" in out or "Temporal properties were violated" in out
+    res["violated"] = bool(m) or "is violated" in out or "Temporal properties were violated" in out or re.search(r"Temporal property \S+ was violated", out) is not None
     res["deadlock"] = "Deadlock reached" in out
     res["ok"] = (rc == 0 and "Model checking completed. No error has been found." in out) or \
                 (simulate is not None and rc in (0,) and not res["violated"])
